@@ -970,6 +970,10 @@ func (ro *RedisOutput) sendCmdsBatch(replayWait usync.WaitCloser, conn client.Re
 	}
 
 	sendFuncOnce := func(shouldInTransaction, shouldUpdateCP bool, lastOffset int64) error {
+		if lastOffset < 0 {
+			// nothing consumed yet: there is no position to store
+			shouldUpdateCP = false
+		}
 		if len(cmdQueue) == 0 && shouldInTransaction && !shouldUpdateCP {
 			return nil
 		}
